@@ -3906,7 +3906,12 @@ public:
     //! @brief Checks if has value
     constexpr bool has_value() const noexcept
     {
-        return (val != Derived::null_value());
+        // NaN, the default null value of floating-point types, never compares
+        // equal to itself
+        return !(
+            (val == Derived::null_value())
+            || ((val != val)
+                && (Derived::null_value() != Derived::null_value())));
     }
 
     //! @brief Checks if has value
@@ -3926,7 +3931,8 @@ public:
     constexpr friend bool
         operator==(const optional_base& lhs, const optional_base& rhs) noexcept
     {
-        return *lhs == *rhs;
+        return (lhs && rhs) ? (*lhs == *rhs)
+                            : (lhs.has_value() == rhs.has_value());
     }
 
 #ifdef SBEPP_DOXYGEN
@@ -3953,7 +3959,7 @@ public:
     constexpr friend bool
         operator!=(const optional_base& lhs, const optional_base& rhs) noexcept
     {
-        return *lhs != *rhs;
+        return !(lhs == rhs);
     }
 
     //! @brief Tests if `lhs` is less than `rhs`
